@@ -32,10 +32,11 @@ Import ListNotations. Open Scope Z_scope.
 # ------------------------------------------------------------------ schema (mirrors test/dataset classes)
 CLS = {"Position": 1, "Position4D": 2, "Orientation": 3, "Pose": 4, "Body": 5, "Handle": 6, "Container": 7,
        "Connection": 8, "FixedConnection": 9, "PrismaticConnection": 10, "World": 11, "WorldEntity": 12, "Atom": 13,
-       "OriginalSimulatedObject": 14, "int": 100}
+       "OriginalSimulatedObject": 14, "EntityAssociation": 15, "int": 100}
 ATTR = {"name": 1, "id_": 2, "x": 3, "y": 4, "z": 5, "w": 6, "position": 7, "orientation": 8, "size": 9,
         "parent": 10, "child": 11, "world": 12, "id": 13, "element": 14, "type": 15, "charge": 16,
-        "bodies": 17, "concept": 18, "placeholder": 19}          # bodies: a collection relationship, deliberately in no class's FIELDS
+        "bodies": 17, "concept": 18, "placeholder": 19, "a": 20}  # bodies: a collection relationship, deliberately in no class's FIELDS
+# a: the list-valued (JSON column) attribute of EntityAssociation, in no FIELDS either: not a column the translator may use (was C07-ad)
 PARENT = {"Position4D": "Position", "Handle": "Body", "Container": "Body", "FixedConnection": "Connection",
           "PrismaticConnection": "Connection", "Body": "WorldEntity", "Connection": "WorldEntity"}
 # field -> "int" | "str" | ("rel", target)         (all mapped to-one fields, inherited ones included)
@@ -50,6 +51,7 @@ FIELDS: Dict[str, Dict[str, Any]] = {
     "World": {"id": "int"}, "WorldEntity": {"world": ("rel", "World")},
     "Atom": {"element": "enum", "type": "int", "charge": "int"},       # element: Enum column (a String subclass in SQLAlchemy)
     "OriginalSimulatedObject": {"concept": "deco", "placeholder": "int"},   # concept: TypeDecorator over text (an object or None in memory)
+    "EntityAssociation": {},                                            # only its JSON attribute `a` is used, as a bare condition (rejected)
     "int": {},                                                          # pseudo class of plain-valued variables: let(int, [...])
 }
 NULLABLE = {("Orientation", "w"), ("Body", "world"), ("Handle", "world"), ("Container", "world"),
@@ -128,7 +130,30 @@ def gen_world(rng: core.Rng, nulls: bool, prismatic: bool = True) -> List[dict]:
         if c == "PrismaticConnection" and not prismatic:
             continue                                          # a world in which the other table of the joins is empty
         add(c, {"parent": {"ref": a}, "child": {"ref": b}, "world": wj})
+    for lst in (["x"], [], None, ["y", "z"]):                 # list-valued attribute: non-empty, empty, absent
+        add("EntityAssociation", {})
+        objs[-1]["x"] = lst
     return objs
+
+
+def extra_queries() -> List[dict]:
+    """shapes repaired in round 8, fixed per world: a JSON attribute as a bare condition, a one-shot iterator as container,
+    a text attribute against a numeric attribute of the same entity (directly and through a reference)"""
+    out = []
+    ja = ["truth", ["attr", "ea", ["a"]]]
+    for c in (ja, ["not", ja], ["and", ja, ja], ["or", ja, ["not", ja]]):
+        out.append({"the": False, "sel": "ea", "vars": {"ea": "EntityAssociation"}, "cond": c})
+    for sel, sel_c, ch in (("b", "Body", ["size"]), ("c", "Connection", ["child", "size"]), ("p", "Position", ["x"])):
+        it = ["incoll", "iter", [0, 1, 2, 6], ["attr", sel, ch]]
+        for c in (it, ["or", it, ["cmp", "==", ["attr", sel, ch], ["lit", 3]]], ["not", it]):
+            out.append({"the": False, "sel": sel, "vars": {sel: sel_c}, "cond": c})
+    for sel, sel_c, pre in (("b", "Body", []), ("h", "Handle", []), ("c", "Connection", ["parent"]), ("f", "FixedConnection", ["child"])):
+        n, z = ["attr", sel, pre + ["name"]], ["attr", sel, pre + ["size"]]
+        for op in ("==", "!=", "<", ">="):
+            out.append({"the": False, "sel": sel, "vars": {sel: sel_c}, "cond": ["cmp", op, n, z]})
+            out.append({"the": False, "sel": sel, "vars": {sel: sel_c}, "cond": ["cmp", op, z, n]})
+        out.append({"the": False, "sel": sel, "vars": {sel: sel_c}, "cond": ["or", ["cmp", "==", n, z], ["cmp", ">=", z, ["lit", 0]]]})
+    return out
 
 
 def join_queries() -> List[dict]:
@@ -199,6 +224,8 @@ class LiveWorld:
             return None if v is None else self.objs[v["ref"]]
         if c == "Atom":
             return K(_NS["Element"][f["element"]["enum"]], f["type"], f["charge"])
+        if c == "EntityAssociation":
+            return K(_NS["Entity"](f"e{o['k']}"), a=o.get("x"))
         if c == "OriginalSimulatedObject":
             # (a None concept is stored as the text 'builtins.NoneType' by ConceptType and cannot be loaded again: C05's subject)
             return K(_NS[f["concept"]["obj"]](), f["placeholder"])
@@ -235,7 +262,7 @@ def _imports():
     import test.dataset.example_classes as ex
     import test.dataset.semantic_world_like_classes as sw
     import test.dataset.ormatic_interface as oi
-    for n in ("Position", "Position4D", "Orientation", "Pose", "Atom", "Element", "OriginalSimulatedObject", "Cup", "Bowl"):
+    for n in ("Position", "Position4D", "Orientation", "Pose", "Atom", "Element", "OriginalSimulatedObject", "Cup", "Bowl", "Entity", "EntityAssociation"):
         _NS[n] = getattr(ex, n)
     _NS["int"] = int
     for n in ("Body", "Handle", "Container", "Connection", "FixedConnection", "PrismaticConnection", "World"):
@@ -314,6 +341,8 @@ def cond_term(c) -> str:
         return f"CTruth ({operand_term(c[1])})"
     if k == "inset":
         return "CInSet [" + "; ".join(val_term(v) for v in c[1]) + f"] ({operand_term(c[2])})"
+    if k == "incoll" and c[1] == "iter":                    # a one-shot iterator cannot be read twice: rejected (was C07-ae)
+        return "COther"
     if k == "incoll":                                       # in_(item, range / dict / tuple): translated like a list
         return "CContains (OList [" + "; ".join(val_term(v) for v in c[2]) + f"]) ({operand_term(c[3])})"
     if k == "other":
@@ -385,7 +414,7 @@ def build_query(q: dict, lw: LiveWorld):
         if k == "incoll":
             vals = c[2]
             cont = {"range": lambda: range(min(vals), max(vals) + 1), "dict": lambda: {v: 0 for v in vals},
-                    "tuple": lambda: tuple(vals)}[c[1]]()
+                    "tuple": lambda: tuple(vals), "iter": lambda: iter(list(vals))}[c[1]]()
             return in_(ex(c[3]), cont)
         if k == "other":
             a = ex(c[2])
@@ -557,6 +586,10 @@ def gen_query(rng: core.Rng, spec: List[dict], mode: str) -> dict:
                 return ["cmp", rng.choice(ops_for(k)), a, b]
         if r < 0.82:
             return ["in", ["list", [lit(k) for _ in range(rng.randint(0, 3))]], a]
+        if wild and k in ("int", "str") and rng.chance(0.04):      # a text attribute against a numeric one (rejected: was C07-ac)
+            b, _ = attr("str" if k == "int" else "int", a[1])
+            if b is not None and b[1] == a[1]:
+                return ["cmp", rng.choice(list(OPS)), a, b]
         if wild:
             r3 = rng.random()
             if r3 < 0.35 and k == "str":
@@ -567,7 +600,7 @@ def gen_query(rng: core.Rng, spec: List[dict], mode: str) -> dict:
                 return ["truth", a]
             if r3 < 0.73 and k == "int" and a[1] == sel:
                 vals = sorted({rng.randint(0, 3) for _ in range(rng.randint(1, 3))})
-                kind = rng.choice(["range", "dict", "tuple"])
+                kind = rng.choice(["range", "dict", "tuple", "iter"])
                 if kind == "range":
                     vals = list(range(vals[0], vals[-1] + 1))
                 return ["incoll", kind, vals, a]
@@ -661,6 +694,9 @@ def sweep_queries(full: bool) -> List[dict]:
                     if k2 == k and (full or ch2 != ch):
                         out.append({"the": False, "sel": sel, "vars": {sel: sel_c},
                                     "cond": ["cmp", op, ["attr", sel, ch], ["attr", sel, ch2]]})
+                    elif k2 != k and k2 != "deco" and (full or op in ("==", "<")):     # columns of two kinds (text/number: rejected)
+                        out.append({"the": False, "sel": sel, "vars": {sel: sel_c},
+                                    "cond": ["cmp", op, ["attr", sel, ch], ["attr", sel, ch2]]})
             atoms.append(["cmp", "<=" if k == "int" else ("==" if k == "enum" else ">="), ["attr", sel, ch],
                           ["lit", lits[k][0] if (not full or k == "enum") else (1 if k == "int" else "abc")]] if k != "enum" or True else None)
             if k == "enum":
@@ -750,7 +786,7 @@ def run(tier: str, seed: int, replay=None) -> int:
                 "(one without, one with None) an exhaustive sweep of every single comparison chain-op-literal / chain-op-chain, IN lists and "
                 "the(==) of every variable type (thorough: all literals, and every and_/or_ of two comparisons). "
                 "In every world a fixed connection with two, one with one and one with no prismatic partner, and all equality joins fixed.x == prismatic.y "
-                "(both orders, alone and next to a comparison isolating one entity) as an(...) and the(...), plus two joins onto one table and joins below or_. Rows compared as bags (as sets when an equality join stands below an or_); F07 / F07J membership is decided in Coq per case. "
+                "(both orders, alone and next to a comparison isolating one entity) as an(...) and the(...), plus two joins onto one table and joins below or_; and fixed per world the shapes repaired last: a JSON attribute as bare condition, a one-shot iterator as in_ container, a text attribute against a numeric attribute (all to be rejected). Rows compared as bags (as sets when an equality join stands below an or_); F07 / F07J membership is decided in Coq per case. "
                 "distinct = distinct (query, world); non-trivial = result neither empty nor the whole domain, or a the()/error outcome")
     ok_spec, log = core.coq_make(["Base/Sx.vo", "Orm/EqlToSqlSpec.vo"])
     rep.oblige("build:spec", ok_spec, "" if ok_spec else core.first_error(log))
@@ -789,6 +825,8 @@ def run(tier: str, seed: int, replay=None) -> int:
             wi = add_world(gen_world(wr, nulls=(wn % 2 == 1), prismatic=(wn != nworlds - 1)))
             for q in join_queries():                           # equality joins with 0 / 1 / 2 partners, an(...) and the(...)
                 cases.append({"q": q, "w": wi, "src": "gen:join"})
+            for q in extra_queries():
+                cases.append({"q": q, "w": wi, "src": "gen:extra"})
             if wn < 2:                                         # exhaustive small scope on one world without and one with None
                 for q in sweep_queries(tier != "quick"):
                     cases.append({"q": q, "w": wi, "src": "gen:sweep"})
